@@ -1469,6 +1469,10 @@ func spaces(tier string) []kit.Space {
 			})
 		}
 	}
+	sps = append(sps, faultFormsSpace(), chainSpace())
+	if os.Getenv("C12_DEV_NEWSPACES") != "" { // development only
+		return sps[len(sps)-2:]
+	}
 	return sps
 }
 
